@@ -116,14 +116,19 @@ abbrev IgnoresDb := List (Str × Nat)
 
 def sp (kw v : Str) : Str := kw ++ ' ' :: v
 
+/-- the `(keyword, value)` pairs `IrcUser.preserve` writes, in order -/
+def userCmds (u : User) : List (Str × Str) :=
+  [(kwName, u.name), (kwIgnore, boolStr u.ignore), (kwSecure, boolStr u.secure)] ++
+  (if u.password.isEmpty then [] else [(kwHashed, boolStr u.hashed), (kwPassword, u.password)]) ++
+  u.caps.map (fun c => (kwCapability, c)) ++
+  u.hostmasks.map (fun h => (kwHostmask, h)) ++
+  u.nicks.map (fun p => (kwNicks, sp p.1 (joinChar ' ' p.2))) ++
+  u.gpgkeys.map (fun k => (kwGpgkey, k))
+
+def cmdLine (p : Str × Str) : Str := sp p.1 p.2
+
 /-- the lines `IrcUser.preserve` writes (without indent and line separator) -/
-def userLines (u : User) : List Str :=
-  [sp kwName u.name, sp kwIgnore (boolStr u.ignore), sp kwSecure (boolStr u.secure)] ++
-  (if u.password.isEmpty then [] else [sp kwHashed (boolStr u.hashed), sp kwPassword u.password]) ++
-  u.caps.map (sp kwCapability) ++
-  u.hostmasks.map (sp kwHostmask) ++
-  u.nicks.map (fun p => sp kwNicks (sp p.1 (joinChar ' ' p.2))) ++
-  u.gpgkeys.map (sp kwGpgkey)
+def userLines (u : User) : List Str := (userCmds u).map cmdLine
 
 def indent2 (l : Str) : Str := ' ' :: ' ' :: l
 
@@ -138,13 +143,15 @@ def userBlock (p : Nat × User) : List Str := blockLines (sp kwUser (natToStr p.
 def dumpUsers (db : UsersDb) : Str :=
   unlines ((sortBy (fun a b => decide (a.1 ≤ b.1)) db.users).flatMap userBlock)
 
-def expLine (kw : Str) (p : Str × Nat) : Str := sp kw (sp p.1 (natToStr p.2))
+def expCmd (kw : Str) (p : Str × Nat) : Str × Str := (kw, sp p.1 (natToStr p.2))
 
-def chanLines (c : Chan) : List Str :=
-  [sp kwLobotomized (boolStr c.lobotomized), sp kwDefaultAllowW (boolStr c.defaultAllow)] ++
-  c.caps.map (sp kwCapability) ++
-  (sortBy (fun a b => decide (a.2 ≤ b.2)) c.bans).map (expLine kwBan) ++
-  (sortBy (fun a b => decide (a.2 ≤ b.2)) c.ignores).map (expLine kwIgnore)
+def chanCmds (c : Chan) : List (Str × Str) :=
+  [(kwLobotomized, boolStr c.lobotomized), (kwDefaultAllowW, boolStr c.defaultAllow)] ++
+  c.caps.map (fun x => (kwCapability, x)) ++
+  (sortBy (fun a b => decide (a.2 ≤ b.2)) c.bans).map (expCmd kwBan) ++
+  (sortBy (fun a b => decide (a.2 ≤ b.2)) c.ignores).map (expCmd kwIgnore)
+
+def chanLines (c : Chan) : List Str := (chanCmds c).map cmdLine
 
 def chanBlock (p : Str × Chan) : List Str := blockLines (sp kwChannel p.1) (chanLines p.2)
 
@@ -152,9 +159,11 @@ def chanBlock (p : Str × Chan) : List Str := blockLines (sp kwChannel p.1) (cha
 def dumpChannels (db : ChannelsDb) : Str :=
   unlines ((sortBy (fun a b => strLe a.1 b.1) db).flatMap chanBlock)
 
-def netLines (n : Net) : List Str :=
-  (sortBy (fun a b => strLe a.1 b.1) n.sts).map (fun p => sp kwStsPolicyW (sp p.1 p.2)) ++
-  (sortBy (fun a b => strLe a.1 b.1) n.last).map (expLine kwLastDiscW)
+def netCmds (n : Net) : List (Str × Str) :=
+  (sortBy (fun a b => strLe a.1 b.1) n.sts).map (fun p => (kwStsPolicyW, sp p.1 p.2)) ++
+  (sortBy (fun a b => strLe a.1 b.1) n.last).map (expCmd kwLastDiscW)
+
+def netLines (n : Net) : List Str := (netCmds n).map cmdLine
 
 def netBlock (p : Str × Net) : List Str := blockLines (sp kwNetwork p.1) (netLines p.2)
 
